@@ -101,6 +101,13 @@ def run(tier, seed):
         res.count("seed-zero")
         if not np.array_equal(a_, b_):
             bad.append(dict(failed="the Boltzmann generator is reproducible from its seed (seed %r of type %s gives different draws on repetition)" % (s0, type(s0).__name__), case=dict(seed=int(s0))))
+    par_ = np.random.SeedSequence(rng.randrange(2 ** 31)); kids_ = par_.spawn(4); mass_ = np.array([100.0, 2000.0, 35.0])
+    outs_ = [boltzmann_velocities(mass_, 300.0, scale=False, seed=kd) for kd in kids_]
+    refs_ = [boltzmann_velocities(mass_, 300.0, scale=False, seed=np.random.default_rng(np.random.SeedSequence(par_.entropy, spawn_key=(i_,)))) for i_ in range(4)]
+    res.count("seed-sequence-children-as-seeds", 4)
+    if any(np.array_equal(outs_[i_], outs_[j_]) for i_ in range(4) for j_ in range(i_)) or any(not np.array_equal(a_, b_) for a_, b_ in zip(outs_, refs_)):
+        bad.append(dict(failed="every sample carries its own distinct seed sequence and the Boltzmann generator draws from the stream of the seed it is given (children spawned from one parent as seeds: %d distinct results of 4, %d equal to the stream of the same child)"
+                               % (len(set(tuple(o_.tolist()) for o_ in outs_)), sum(np.array_equal(a_, b_) for a_, b_ in zip(outs_, refs_))), case=dict(parent_entropy=int(par_.entropy))))
     # supporting evidence only: moments of the unscaled Boltzmann momenta
     mass = np.array([100.0, 2000.0, 5e4]); T = 300.0; kt = boltzmann * T
     P = np.array([boltzmann_velocities(mass, T, scale=False, seed=1000 + i) * mass for i in range(4000)])
